@@ -7,6 +7,15 @@ import importlib
 
 CLAIMED = {
  # id: (technique, level_note, design_ref)
+ 'C05': ('ast path walker + alias/view provenance lattice (must-alias write sinks, result-aliasing sinks), typestate rule for the native close',
+         'Decides: no non-mutator method/function writes storage that must-alias its receiver or arguments; no result variable / dimension '
+         'table is a view of an input (incl. the zero-iteration path of copying loops); native close guarded by isopen(). Not decided: aliasing '
+         'created by user eval text, values of UNKNOWN provenance (listed as undecided), GC schedules as such. Trusted: numpy view/copy fact '
+         'table, netCDF4 close/isopen semantics, frozen mutator-by-contract table.', '4/C05'),
+ 'C16': ('ast lints on the lookup functions: discarded-pure-expression, direction-branch pairing, installed-numpy API resolution, provenance write check, exact-membership and tz-conversion idioms',
+         'Decides structural necessary conditions only (no discarded reversal, every interp abscissa reversed with the index vector, API exists, '
+         'coordinate never written, exact mask by exact membership, astimezone before dropping tzinfo). Not decided: nearest/containing-cell '
+         'correctness at every edge. Trusted: np.interp needs an increasing abscissa; hasattr() on the installed numpy.', '4/C16'),
  'C15': ('ast who-may-mutate analysis with alias provenance of module globals; purity lint of isMine',
          'Decides only: the reader registry is mutated by registerreader alone (through any alias) and isMine writes no '
          'global/class state. Not decided: equality of auto-detected vs explicitly named results. Trusted: CPython ast; '
